@@ -24,7 +24,8 @@ CHECKS = {
     "C04": dict(
         cat="model_checking", design="3/C04",
         technique="stateless model checking of the real library: exhaustive single-fault (quick) / fault-pair (thorough) enumeration over every intercepted libc call on both sides of fork, under a controlled libc layer",
-        text="12 start scenarios (all redirect kinds, input, workdir+relative program, extra env, nonblocking, fork mode, forked side first or parent first) "
+        text="14 start scenarios (all redirect kinds, input, workdir+relative program, extra env, nonblocking, fork mode with the forked side first or the parent first, "
+             "a standard descriptor of the parent as source of another stream, parent streams with stdin and stderr closed) "
              "x every answer of every fault menu at every libc call reproc_start makes in the parent and in the forked child, one at a time (quick) and "
              "in pairs (thorough); 10 natural failures with the real exec (missing/non-executable/over-long program, bad working directory, unusable "
              "redirect path, oversized input, name not in PATH), each also combined with every single fault. Oracle by outcome: either a negative result that "
@@ -33,7 +34,7 @@ CHECKS = {
     "C05": dict(
         cat="model_checking", design="3/C05",
         technique="stateless model checking of the real library: exhaustive single-fault (quick) / fault-pair (thorough) enumeration over every intercepted libc call on both sides of fork, under a controlled libc layer",
-        text="12 redirect/option scenarios x 7 API histories (destroy, wait, write/close/read-to-EOF, drain, terminate/wait/kill, kill/wait, run_ex) with "
+        text="14 redirect/option scenarios x 7 API histories (destroy, wait, write/close/read-to-EOF, drain, terminate/wait/kill, kill/wait, run_ex) with "
              "user-owned FILE/handles/std streams, x every fault (including close EINTR/EIO and every allocation) at every libc call of the whole history: "
              "descriptor ledger empty and /proc/self/fd equal to the initial table, heap ledger empty, no foreign/double close or free (recorded and not "
              "executed), user objects still open on the same inode, children reaped."),
@@ -42,13 +43,13 @@ CHECKS = {
         technique="stateless model checking of the real library: exhaustive API histories x child-step schedules, plus single-fault enumeration during start, with a child ledger at the kill/waitpid boundary",
         text="Every kill()/waitpid() the library issues is checked against the child ledger (positive pid returned by fork for this handle, not yet reaped); "
              "calls that fail the rule are recorded and never reach the kernel. Space: every single start fault continued with terminate/wait/kill/"
-             "terminate/destroy and kill/wait (12 scenarios), and all histories up to depth 3/4 over wait/terminate/kill/stop with the child's end released "
+             "terminate/destroy and kill/wait (14 scenarios), and all histories up to depth 3/4 over wait/terminate/kill/stop with the child's end released "
              "at every scheduling point (the C01 space), including stop sequences and terminate/kill after a successful wait."),
     "C12": dict(
         cat="model_checking", design="3/C12",
         technique="stateless model checking of the real library: exhaustive single-fault (quick) / fault-pair (thorough) enumeration over every intercepted libc call on both sides of fork, under a controlled libc layer",
-        text="4 caller signal masks x 12 disposition tables x 12 scenarios with the real exec (child side: hello reports empty mask, nothing ignored or "
-             "caught) and the same scenarios under every single fault at every call of reproc_start (parent side: mask, 31 dispositions, cwd, environ "
+        text="4 caller signal masks x 12 disposition tables x 14 scenarios with the real exec (child side: hello reports empty mask, nothing ignored or "
+             "caught; in fork mode the forked side itself examines its mask and 31 dispositions where start returns 0) and the same scenarios under every single fault at every call of reproc_start (parent side: mask, 31 dispositions, cwd, environ "
              "pointer+content identical before/after on every return path; a failure of the restoring call itself is exempt, as the property says)."),
     "C07": dict(
         cat="model_checking", design="3/C07",
@@ -58,18 +59,22 @@ CHECKS = {
              "scheduling/blocked point, dies on SIGTERM, handler then dies when released, ignores SIGTERM} x state {running, exited-unreaped, reaped}. "
              "Oracle: signals are a prefix of the actions' signals in order, each sent exactly when the preceding waits have expired on the virtual "
              "clock and never after the child's exit; status iff reaped and exact; ETIMEDOUT iff every slot ran and no wait could have seen the exit; "
-             "EINVAL only at a reached out-of-range slot; a hang only inside an infinite slot with a child that cannot end."),
+             "EINVAL only at a reached out-of-range slot; a hang only inside an infinite slot with a child that cannot end. Every 11th (quick) / 3rd (thorough) "
+             "configuration additionally under one failing kill() or one poll() interrupted by a signal after any elapsed time: the error is returned at "
+             "that instant, nothing later. Thorough adds the handle state 'exited, reap interrupted'."),
     "C15": dict(
         cat="model_checking", design="3/C15",
         technique="stateless model checking of the real library: the C07 space driven through options.stop + reproc_destroy, plus handle-state enumeration",
         text="The C07 space through reproc_start(options.stop) + reproc_destroy (no result: judged from the child ledger, signals and virtual return "
              "time), the default policy (returns only with the child reaped, SIGTERM not before the deadline and never without one), destroy on "
              "NULL / never started / failed start / rejected options (no kill, poll, waitpid or close; ledgers clean), the forked side (h_start), and a "
-             "handle whose first start failed with a deadline before the real start without one."),
+             "handle whose first start failed with a deadline before the real start without one, and a handle whose child has exited but whose reap was "
+             "interrupted (an earlier wait returned EINTR)."),
     "C08": dict(
         cat="model_checking", design="3/C08",
         technique="stateless model checking of the real library under a virtual clock: exhaustive enumeration of source orders/deadlines/timeouts x blocked-call outcomes (every elapsed millisecond, timeout expiry, signal interruption) x clock-read deviations",
-        text="reproc_wait: timeout {0,1,2,3,INFINITE,DEADLINE} x deadline {none,1,2,3,INT_MAX} x child {idle, exits at any point, two waits}. "
+        text="reproc_wait: timeout {0,1,2,3,INFINITE,DEADLINE} x deadline {none,1,2,3,INT_MAX} x child {idle, exits at any point, two waits, fork mode, exited "
+             "before the call, call 4 ms late with the child exited / idle}. "
              "reproc_poll: 1..2 (thorough 3) sources in every order, each {no process, no deadline, deadline 1/2/3 ms, already expired} x interests "
              "{EXIT, OUT, OUT|EXIT} x timeout {0,1,2,3,INFINITE} x children {idle, write, exit}, polled twice. Every alternative at every blocked OS "
              "poll (child event after each elapsed ms, expiry, EINTR after each elapsed ms) and clock jumps at clock reads, one deviation (quick) / two "
@@ -80,7 +85,7 @@ CHECKS = {
         cat="model_checking", design="3/C09",
         technique="stateless model checking of the real library: exhaustive enumeration of stream/child states x interest masks x schedules, with kernel truth probes after every poll",
         text="1 and 3 sources (one of them process-less) x all 16 interest masks x stdout {idle, data pending, closed by child, closed by parent, EOF "
-             "already reported, not a pipe} x stdin {idle, closed by child, closed by parent} x stderr {pipe, parent} x child {running, zombie, reaped} x "
+             "already reported, not a pipe} x stdin {idle, closed by child, closed by parent, pipe exactly full, full and then closed by the child} x stderr {pipe, parent} x child {running, zombie, reaped} x "
              "timeout {0, 2} x an expired deadline on the last source, with one remaining child step released at any scheduling/blocked point. After "
              "each return the harness polls the parent's own descriptors (matched to the child's by pipe inode): events == requested and ready, count == "
              "sources with events, EPIPE iff nothing requested is pollable, and every reported event is consumed (read / 1-byte write / wait(0)) without "
@@ -91,7 +96,7 @@ CHECKS = {
         text="11 child scripts over stdout/stderr/stdin (interleaved writes, closes in either order, exit, read-to-EOF, echo, write to a closed descriptor) x "
              "payload sizes {0,1,7,cap-1,cap,cap+1,2cap+3} with the pipes set to one page, plus 65535/65537 bytes and one 2 MiB transfer on default pipes "
              "x stderr {pipe, merged into stdout, parent} x 8 parent loops (buffer 1/3/4096/70000, zero-size read first, poll-then-read, nonblocking+poll, "
-             "drain) x stdin feeds {0,1,7,cap,cap+1, start-up input}; child steps released at every scheduling point (up to 3 deviations quick / 4 thorough "
+             "drain) x stdin feeds {0,1,7,cap,cap+1, start-up input}, the stdin scripts also with the forked side of fork mode as the child; child steps released at every scheduling point (up to 3 deviations quick / 4 thorough "
              "for small payloads) and at every blocked read/write/poll. Position-dependent payload: every returned byte is compared with what the child "
              "wrote at that offset (kernel write order for the merged stream); EPIPE only once the child has closed every descriptor on the stream and all "
              "bytes were returned, then sticky without a system call; stdin bytes and EOF arrive; a blocked read after the child closed the stream is a violation."),
@@ -109,7 +114,7 @@ CHECKS = {
         cat="model_checking", design="3/C17",
         technique="stateless model checking of the real library with a blocked-interval log: every state of the pipe x operation x mode, livelock guard on busy waits",
         text="nonblocking on/off x pipe {empty, partly filled, full (one page), far side closed} x {read stdout, read stderr, write 1 / cap / 3cap bytes} x child "
-             "{idle, one more step} and start-up input of {0,1,cap-1,cap,64Ki,64Ki+1,256Ki} bytes in both modes. Nonblocking: no intercepted call is ever found "
+             "{idle, one more step} and start-up input of {0,1,cap-1,cap,64Ki,64Ki+1,256Ki} bytes in both modes, followed by a read on stdout and stderr. Nonblocking: no intercepted call is ever found "
              "blocked, results are a count / EPIPE / EWOULDBLOCK consistent with FIONREAD and the child's script position; input never blocks start and is "
              "either delivered completely (child reads all of it, sees EOF) or start fails with no child; blocking: every blocked interval is ended by a step "
              "of the child. A call that issues >20000 system calls without blocking or returning is reported as a busy wait."),
@@ -118,7 +123,7 @@ CHECKS = {
         technique="exhaustive enumeration of the redirect configuration space against the real library and a real exec; the child reports (st_dev, st_ino, st_rdev, access mode, FD_CLOEXEC) of its descriptors",
         text="All 6x6x7 explicit per-stream types + the four shorthands + all-default, each with the parent's descriptors 0/1/2 open or closed in all 8 "
              "combinations (2056 real execs); every HANDLE/FILE target being the parent's own stdout/stderr instead of a user object (176); standard "
-             "streams closed with fclose() (28); thorough adds nonblocking. For each stream the helper's hello must show exactly the requested object "
+             "streams closed with fclose() (28); descriptors closed first so that the user's FILEs/handles themselves sit on 0-2 (868); thorough adds nonblocking. For each stream the helper's hello must show exactly the requested object "
              "with the right direction (pipe inode matched to a descriptor the parent holds in the opposite direction; the parent's own stream or "
              "the null device when it has none; same open file as fd 1 for STDOUT; the supplied handle/FILE; the path's inode opened read/write-only), "
              "no FD_CLOEXEC left, and the API answers EPIPE exactly for non-pipe streams. A clean failure of a valid combination is a violation."),
@@ -128,7 +133,8 @@ CHECKS = {
         text="Descriptor limits {32, 64, 256} (thorough: 1024, 2048) x every subset of extra parent descriptors at {3, 4, 11, L-2, L-1} each absent / open / "
              "open+close-on-exec (243) x redirects {default, pipes, discard, user handles, user FILEs without close-on-exec}, plus the whole C10 space: "
              "the started program sees 0, 1, 2 and exactly one more descriptor, the write end of a pipe whose read end the parent holds and that is none "
-             "of the streams; the caller's own descriptors are still open afterwards. The concurrent-start part is decided by the C20 harness."),
+             "of the streams; the caller's own descriptors are still open afterwards; two starts with the limit raised in between, the second also in fork mode "
+             "while the first child runs (the forked side lists its descriptors). Concurrent starts from threads are decided by the C20 harness."),
     "C13": dict(
         cat="model_checking", design="3/C13 + Appendix A",
         technique="exhaustive enumeration of the option space against the real validation code with an independent reference of the documented rules; resource-creating libc calls are intercepted, counted and refused, valid combinations are spawned for real",
@@ -145,7 +151,8 @@ CHECKS = {
              "every two-byte string as a single argument (also with the real exec), a 4 KiB and a 128 KiB argument; environment: every list of 0..2 "
              "(thorough 0..3) extra entries over 8 shapes (empty value, empty name, no '=', duplicate key, UTF-8, spaces, quotes) x EXTEND/EMPTY x parent "
              "environments {empty, 1, 40 entries, duplicate key}; program named absolutely / ./dir/prog / dir/prog / ../x/prog / by bare name through PATH "
-             "x working_directory {unset, relative, with spaces, absolute} x EXTEND/EMPTY; parent cwd lengths 100..20000 bytes around PATH_MAX under "
+             "x working_directory {unset, relative, with spaces, absolute} x EXTEND/EMPTY, a decoy program of the same relative name under each child directory, "
+             "and every single failure of getcwd/malloc/calloc/realloc during the start (a clean error or the right program); parent cwd lengths 100..20000 bytes around PATH_MAX under "
              "ASan/UBSan. Oracle: the helper's argv/envp/getcwd byte for byte; the helper image really ran (resolved against the parent's cwd); beyond "
              "PATH_MAX a negative result, no child, no sanitizer report. Outside the bound: strings longer than 2 bytes beyond the two long cases."),
     "C14": dict(
@@ -156,7 +163,8 @@ CHECKS = {
              "wait(DEADLINE), terminate, kill, stop{wait 0}, stop{kill INF}, destroy + fresh handle, every API with a NULL handle, and the environment "
              "operations 'child performs its next step' and 'time passes'. Histories of length 4 (quick) / 6 (thorough), every newly found state expanded "
              "with every operation. Oracle: ref_life (state NOT_STARTED -> RUNNING -> EXITED only; what each call must return in each state, using the "
-             "kernel for pending-byte truth), no sanitizer report, no signal death, nothing left after destroy."),
+             "kernel for pending-byte truth), no sanitizer report, no signal death, nothing left after destroy. The digest keeps apart which operation closed "
+             "each stream end and which one reaped the child, so that states reached through different code paths of the library are each expanded."),
     "C18": dict(
         cat="model_checking", design="3/C18", engine="h_c18",
         technique="bounded exhaustive enumeration of argument vectors and environment lists through the real Windows sources (compiled on Linux against stub Win32 functions, ASan/UBSan), round-trip checked with an independent implementation of the documented splitting rules",
@@ -189,7 +197,8 @@ CHECKS = {
              "shows no descriptor of the other thread's pipes, and right after a thread's close(IN) its own child sees EOF with nobody else moving - all "
              "schedules with <=1 preemption (thorough <=2), emulated and real exec. (A) writer thread (3 + cap+1 bytes, close) and reader thread on one "
              "echo child, <=2 (3) preemptions: reader gets exactly the writer's bytes. (C) reproc_strerror from two threads with a switch between call "
-             "and use. Data races below call granularity are looked for by a free-running TSan build (60 / 400 runs of three concurrent life cycles plus a "
+             "and use. (D) two threads each draining its own echo child with reproc_drain, the sink yielding before it looks at its chunk: only its own bytes. "
+             "Data races below call granularity are looked for by a free-running TSan build (60 / 400 runs of three concurrent life cycles, two concurrent drains of 64 KiB and a "
              "reader/writer pair on real cat/sh children): a monitor, not an enumeration."),
 }
 
